@@ -69,6 +69,11 @@ func relative(from uintptr, to uintptr) bool {
 		delta = -delta
 		relative = delta <= 0x80000000
 	}
+	if relative {
+		// rel32 位移是相对于 5 字节 jmp 指令末尾计算的, 需要保证 to-(from+5) 能用 int32 表示
+		dis := int64(to) - int64(from) - 5
+		relative = dis >= -0x80000000 && dis <= 0x7fffffff
+	}
 	return relative
 }
 
